@@ -2,7 +2,7 @@
 # usage: try_seed.sh <seed-id> <PROP> [tier]   -- applies the seeded change to /repo, runs the check, reverts
 set -u
 SEED=$1; PROP=$2; TIER=${3:-quick}
-cd /repo && git apply /verif/seeded/$SEED/patch.diff || { echo "patch does not apply"; exit 3; }
+P=/verif/seeded/$SEED/patch.diff; [ -f /verif/seeded/$SEED/patch_on_fixed_tree.diff ] && P=/verif/seeded/$SEED/patch_on_fixed_tree.diff; cd /repo && git apply $P || { echo "patch does not apply"; exit 3; }
 cd /verif && ./check $PROP --tier $TIER > /tmp/try_$SEED.$PROP.log 2>&1; RC=$?
 cp /verif/evidence/$PROP.json /tmp/try_$SEED.$PROP.evidence.json 2>/dev/null
 cd /repo && git checkout -- .
